@@ -306,4 +306,60 @@ theorem C04_written_two_index_kernels_write_addressed (arith : OpTok → α → 
     run arith ir m args src = assign2 (fOf arith sig.op) m s1 s2 src :=
   run_two arith sig ir (written_ok name ir sig h hsig hd) hex rowAx hrow m args src hfit s1 s2 hs1 hs2
 
+/-- **The two-index kernels as written give the model's result, in any loop order.**  Every extracted kernel that
+    writes `sink[(r, c)]` and is not a listed deviation — also `assign_2d_range_range`, whose row loop is the outer
+    one, and `assign_2d_range_scalar{,_v}`, which take the column view ahead of the loop — runs to its end exactly
+    when `assign2` does for the two selectors its arguments hold, and then leaves the same matrix.  What a failing
+    run leaves behind is compared by `C04_written_two_index_kernels_write_addressed` for the kernels in the model's
+    order only: the others fail at another cell (or before the first one). -/
+theorem C04_written_two_index_kernels_same_result (arith : OpTok → α → α → Except Err α) (name : String)
+    (ir : KIR) (sig : Sig) (h : (name, ir) ∈ Gen.AssignKernels.kernels) (hsig : expected.lookup name = some sig)
+    (hd : deviationOf name = none) (rowAx : TAxis) (hrow : ir.row = some rowAx)
+    (m : Mat α) (args : List Arg) (src : Operand α) (hfit : srcFits ir.src src = true)
+    (s1 s2 : Sel) (hs1 : tSelOf args rowAx = some s1) (hs2 : tSelOf args ir.col = some s2)
+    (hne : ir.hoist = true → ∀ R C, selIxs s1 m.rows = .ok R → selIxs s2 m.cols = .ok C → R ≠ [] ∧ C ≠ []) :
+    ((run arith ir m args src).2 = .ok () ↔ (assign2 (fOf arith sig.op) m s1 s2 src).2 = .ok ()) ∧
+    ((run arith ir m args src).2 = .ok () → (run arith ir m args src).1 = (assign2 (fOf arith sig.op) m s1 s2 src).1) :=
+  run_two_same arith sig ir (written_ok name ir sig h hsig hd) rowAx hrow m args src hfit s1 s2 hs1 hs2 hne
+
+/-- of the accepted kernels exactly these three are not in the model's order (`kExact`) -/
+theorem C04_kernels_not_in_model_order :
+    (Gen.AssignKernels.kernels.filter (fun k => (deviationOf k.1).isNone && !kExact k.2)).map (·.1) =
+      ["assign_2d_range_scalar", "assign_2d_range_scalar_v", "assign_2d_range_range"] := by decide
+
+/-- the accepted kernels (25) and the listed deviations (28) -/
+theorem C04_accepted_and_listed_counts :
+    (Gen.AssignKernels.kernels.filter (fun k => (deviationOf k.1).isNone)).length = 25 ∧
+    knownDeviations.length = 28 := by decide
+
+/-- a corollary through `assign1`: an accepted one-index kernel, as written, leaves every element that is not
+    addressed as it was — whether it runs to its end or fails half-way -/
+theorem C04_written_one_index_kernels_frame (arith : OpTok → α → α → Except Err α) (name : String)
+    (ir : KIR) (sig : Sig) (h : (name, ir) ∈ Gen.AssignKernels.kernels) (hsig : expected.lookup name = some sig)
+    (hd : deviationOf name = none) (hrow : ir.row = none) (m : Mat α) (args : List Arg) (src : Operand α)
+    (hfit : srcFits ir.src src = true) (s : Sel) (hs : tSelOf args ir.col = some s)
+    (ix : List Nat) (hix : selIxs s (m.rows * m.cols) = .ok ix) (q : Nat) (hq : ∀ i ∈ ix, i - 1 ≠ q) :
+    (run arith ir m args src).1.rows = m.rows ∧ (run arith ir m args src).1.cols = m.cols ∧
+    (run arith ir m args src).1.data[q]? = m.data[q]? := by
+  rw [C04_written_one_index_kernels_write_addressed arith name ir sig h hsig hd hrow m args src hfit s hs]
+  have := C04_assign_frame (fOf arith sig.op) m s src ix hix q hq
+  exact ⟨this.1, this.2.1, this.2.2.2⟩
+
+/-! non-vacuity: `x[[3 1]] += [10 20]` through the extracted `add_assign_1d_range_vec`, `x[[2 1], :] = 9` through
+    `assign_2d_range_all`, a failing run that has written (C04-D4); kernels with the loops of a listed deviation, with
+    `-=` under `+=`, without the `- 1`, with `source[0]`, are refused -/
+example : ("add_assign_1d_range_vec", (⟨none, .std (.vec 0 true (.argLen 0)), true, false, .at .colVar, .add⟩ : KIR))
+    ∈ Gen.AssignKernels.kernels := by decide
+example : run natArith ⟨none, .std (.vec 0 true (.argLen 0)), true, false, .at .colVar, .add⟩
+    (⟨1, 3, [1, 2, 3]⟩ : Mat Nat) [.ixs [3, 1]] (.mat ⟨1, 2, [10, 20]⟩) = (⟨1, 3, [21, 2, 13]⟩, .ok ()) := by decide
+example : run natArith ⟨some (.std (.vec 0 true (.argLen 0))), .std (.all (.dim .cols)), true, false, .whole, .set⟩
+    (⟨3, 2, [1, 2, 3, 4, 5, 6]⟩ : Mat Nat) [.ixs [2, 1]] (.scalar 9) = (⟨3, 2, [9, 9, 3, 9, 9, 6]⟩, .ok ()) := by decide
+example : run natArith ⟨none, .std (.vec 0 true (.argLen 0)), true, false, .whole, .set⟩
+    (⟨1, 3, [1, 2, 3]⟩ : Mat Nat) [.ixs [1, 5]] (.scalar 7) = (⟨1, 3, [7, 2, 3]⟩, .error .index) := by decide
+example : kOk ⟨none, .vec, true, .add⟩ ⟨none, .std (.vec 0 true (.argLen 0)), true, false, .at .colVar, .sub⟩ = false := by decide
+example : kOk ⟨none, .vec, true, .add⟩ ⟨none, .std (.vec 0 false (.argLen 0)), true, false, .at .colVar, .add⟩ = false := by decide
+example : kOk ⟨none, .vec, true, .add⟩ ⟨none, .std (.vec 0 true (.argLen 0)), true, false, .at (.lit 0), .add⟩ = false := by decide
+example : kOk ⟨some .all, .scalar, false, .set⟩
+    ⟨some (.std (.all (.dim .cols))), .std (.scalar 0 true), true, false, .whole, .set⟩ = false := by decide
+
 end MechVerif.AssignIR
